@@ -204,6 +204,7 @@ class Engine:
         else:
             g = tobool(goal)
         t0 = time.time()
+        self._current_name = name
         verdict, backend, model, smt2 = self._discharge(g)
         dt = time.time() - t0
         self.solver_seconds += dt
@@ -221,7 +222,17 @@ class Engine:
         s = self._solver(budget)
         s.add(*self.pc)
         s.add(z3.Not(g))
+        slow = getattr(self, "_slow_names", None)
+        if slow is None:
+            slow = self._slow_names = set()
+        name = getattr(self, "_current_name", None)
+        if name in slow and self.use_cvc5:
+            # z3 already needed more than its budget on an instance of this obligation: ask cvc5 first
+            if run_cvc5(s.to_smt2(), self.timeout_ms) == "unsat":
+                return "proved", "cvc5", None, None
         r = s.check()
+        if r == z3.unknown and name is not None:
+            slow.add(name)
         if r == z3.unsat:
             if getattr(self, "cross_check_cvc5", False) and self.use_cvc5:
                 res = run_cvc5(s.to_smt2(), self.timeout_ms)
@@ -231,7 +242,14 @@ class Engine:
             return "proved", "z3", None, None
         if r == z3.sat:
             return "refuted", "z3", s.model(), None
-        # unknown: one retry with 5x the budget (verdicts must not flip under load)
+        # unknown: cvc5 on the SMT-LIB dump first (cheap when it knows the answer) ...
+        smt2 = None
+        if r == z3.unknown and self.use_cvc5:
+            smt2 = s.to_smt2()
+            res = run_cvc5(smt2, self.timeout_ms)
+            if res == "unsat":
+                return "proved", "cvc5", None, None
+        # ... then one z3 retry with 5x the budget (verdicts must not flip under load)
         if r == z3.unknown and budget == self.timeout_ms:
             s.set("timeout", int(self.timeout_ms * 5))
             r = s.check()
@@ -239,13 +257,6 @@ class Engine:
                 return "proved", "z3(retry)", None, None
             if r == z3.sat:
                 return "refuted", "z3(retry)", s.model(), None
-        # still unknown: try cvc5 on the SMT-LIB dump (proof pass)
-        smt2 = None
-        if self.use_cvc5:
-            smt2 = s.to_smt2()
-            res = run_cvc5(smt2, self.timeout_ms)
-            if res == "unsat":
-                return "proved", "cvc5", None, None
         # refutation pass: quantified hypotheses replaced by finitely many instances; the model is
         # only a *candidate* (the replay on the real code is the judge)
         m = self._refute(g)
